@@ -2962,6 +2962,7 @@ def simplify_dict_unpacks(source: str) -> str:
 @processing.fix
 def simplify_collection_unpacks(source: str) -> str:
     root = core.parse(source)
+    safe_callables = parsing.safe_callable_names(root)
 
     for node in core.walk(root, (ast.List, ast.Set, ast.Tuple)):
         replacements = False
@@ -2984,11 +2985,15 @@ def simplify_collection_unpacks(source: str) -> str:
             )):
                 elts.extend(elt.value.elts)
                 replacements = True
-            elif core.match_template(  # Can't have a dict in a set, but you can have a dict's keys
-                elt, ast.Starred(value=(ast.Dict))
-            ) and (
-                (isinstance(node, ast.Set) and None not in elt.value.keys)
-                or len(elt.value.values) <= 1
+            elif (
+                core.match_template(  # Can't have a dict in a set, but you can have a dict's keys
+                    elt, ast.Starred(value=(ast.Dict))
+                )
+                and (isinstance(node, ast.Set) or len(elt.value.values) <= 1)
+                and None not in elt.value.keys  # {**other} has no key expressions
+                and not any(  # the values are evaluated, too
+                    core.has_side_effect(value, safe_callables) for value in elt.value.values
+                )
             ):
                 elts.extend(elt.value.keys)
                 replacements = True
